@@ -177,6 +177,8 @@ _OPS = {
     np.minimum: lambda x, y: _min(tor(x), tor(y)),
     np.power: lambda x, k: tor(x) ** k,
     np.sign: lambda x: _sign(tor(x)),
+    np.remainder: lambda x, y: _num(x) % _num(y),
+    np.floor_divide: lambda x, y: tor(x) // tor(y),
 }
 
 
@@ -1052,6 +1054,8 @@ def _svd(m, full_matrices=True, **kw):
 
 @impl(np.linalg.norm)
 def _norm(a, ord=None, axis=None, **kw):
+    if ord == 1 and axis is None and U(a).ndim == 1:
+        return _sum_items([abs(tor(x)) for x in U(a).flat])
     if ord not in (None, 2) or axis is not None:
         raise NotImplementedError("norm variant")
     s = _sum_items([tor(x) * tor(x) for x in U(a).flat])
